@@ -10,7 +10,7 @@ import tempfile
 from pathlib import Path
 
 VERIF = Path(__file__).resolve().parent.parent
-EXTRA = {"C13-2": ["C16", "C13"], "C05-1": ["C16", "C05"], "C12-2": ["C12", "C10"]}
+EXTRA = {"C13-2": ["C16", "C13"], "C05-1": ["C16", "C05"], "C12-2": ["C12", "C10"], "C17-7": ["C17", "C10"]}
 
 
 def run_check(pid, repo):
